@@ -43,7 +43,7 @@ FsOfJson(j) ==
 
 NoCall == [fn |-> "none"]
 
-InitG == [scen |-> "", mode |-> "clean", src |-> <<>>, snap |-> <<>>, partial |-> {}, calls |-> <<>>,
+InitG == [scen |-> "", mode |-> "clean", src |-> <<>>, snap |-> <<>>, partial |-> {}, owner |-> <<>>, winners |-> <<>>, calls |-> <<>>,
           saved |-> <<>>, healthy |-> EmptyFs, damaged |-> FALSE, dmgdel |-> FALSE, adopt |-> FALSE]
 
 V(mon, detail) == {<<g.scen, mon, l, ToString(detail)>>}
@@ -92,15 +92,26 @@ OpMonitors(r, c) ==
         mut == IsMutating(r.verb)
     IN
     \* the write contract: a create-new write must refuse an existing file
-       If(r.verb = "write" /\ r.inj = "" /\ r.res \notin WriteAdmits(fs, key, r.mode) /\ r.res \in {"ok", "AlreadyExists"},
-          {<<"CreateNewContract", <<key.t, StateOf(fs, key), r.res>> >>})
+       \* (for files outside the format the model does not track emptiness: use the measured pre-state)
+       If(r.verb = "write" /\ r.inj = "" /\ r.res \in {"ok", "AlreadyExists"} /\
+             r.res \notin WriteAdmitsIn(IF key.t = "Other"
+                                        THEN (CASE r.pre = "absent" -> "absent" [] r.pre = "empty" -> "empty" [] OTHER -> "ok")
+                                        ELSE StateOf(fs, key), r.mode),
+          {<<"CreateNewContract", <<key.t, StateOf(fs, key), r.pre, r.res>> >>})
   \cup If(c.fn = "backup" /\ ok /\ r.verb = "write" /\ (r.pre = "nonempty" \/ StateOf(fs, key) \in {"ok", "garbage"}),
           {<<"BackupOverwrote", key.t>>})
   \cup If(c.fn = "backup" /\ ok /\ r.verb \in {"remove_file", "remove_dir_all"},
           {<<"BackupRemoved", key.t>>})
-  \cup If(c.fn = "backup" /\ ok /\ r.verb = "create_dir" /\ key.t = "BandDir" /\ key.b \notin Bands(fs)
-             /\ \E x \in Bands(fs) : x >= key.b,
+  \* a new version's id is above every band directory that exists (a directory created by a
+  \* backup racing with this call, after this call began, is not "existing" in that sense)
+  \cup If(c.fn = "backup" /\ ok /\ r.verb = "create_dir" /\ key.t = "BandDir"
+             /\ \E x \in (IF key.b \in Bands(fs) THEN Bands(c.fs0) ELSE Bands(fs)) : x >= key.b,
           {<<"NewBandNotAbove", key.b>>})
+  \* a backup writes only under the band it created itself, and nobody else created that band
+  \* (a version belongs to whoever succeeded in writing its head)
+  \cup If(c.fn = "backup" /\ ok /\ r.verb = "write" /\ key.t \in {"Head", "Tail", "Hunk"}
+             /\ (key.b # c.band \/ (key.t # "Head" /\ key.b \in DOMAIN g.owner /\ g.owner[key.b] # r.actor)),
+          {<<"WroteIntoOthersBand", <<key.t, key.b>> >>})
   \cup If(c.fn = "delete" /\ ok /\ r.verb = "write" /\ key.t # "Lock", {<<"GcWrote", key.t>>})
   \cup If(c.fn = "delete" /\ ok /\ r.verb = "remove_dir_all"
              /\ ~(key.t = "BandDir" /\ key.b \in SeqRange(c.bands)),
@@ -111,7 +122,7 @@ OpMonitors(r, c) ==
              /\ key.h \in Referenced(fs, Bands(fs) \ SeqRange(c.bands)),
           {<<"GcRemovedReferenced", key.h>>})
   \cup If(c.fn = "delete" /\ ok /\ c.dry /\ mut /\ key.t # "Lock", {<<"DryRunMutated", key.t>>})
-  \cup If(c.fn = "none" /\ r.actor # "init" /\ ok /\ mut, {<<"ReaderMutated", key.t>>})
+  \cup If(c.fn = "none" /\ r.actor \notin {"init", "probe"} /\ ok /\ mut, {<<"ReaderMutated", key.t>>})
 
 (***************************************************************************)
 (* Events.                                                                 *)
@@ -132,7 +143,8 @@ DoCall(r) ==
     /\ g' = [g EXCEPT !.calls = Put(@, r.actor,
                 [fn |-> r.fn, H |-> r.H, M |-> r.M, S |-> r.S, match |-> r.match,
                  bands |-> r.bands, dry |-> r.dry, injected |-> r.injected,
-                 fs0 |-> fs, want |-> Expected(g.src, r.match), band |-> -1, nblk |-> 0])]
+                 fs0 |-> fs, want |-> Expected(IF r.own_tree THEN TreeOfNodes(r.tree) ELSE g.src, r.match),
+                 band |-> -1, nblk |-> 0])]
     /\ UNCHANGED <<fs, viol>>
 
 DoOp(r) ==
@@ -141,8 +153,17 @@ DoOp(r) ==
         newband == c.fn = "backup" /\ r.verb = "create_dir" /\ r.key.t = "BandDir" /\ r.res = "ok"
                    /\ r.inj = "" /\ c.band = -1
         firstmaker == newband /\ r.key.b \notin Bands(fs)
-        snap2 == IF firstmaker THEN Put(g.snap, r.key.b, c.want) ELSE g.snap
-        part2 == IF firstmaker /\ c.injected THEN g.partial \cup {r.key.b} ELSE g.partial
+        \* the version is made by whoever writes its head (the directory may have been created by
+        \* a racing backup that then lost); until a head exists the directory's creator stands in
+        headw == c.fn = "backup" /\ r.verb = "write" /\ r.key.t = "Head" /\ r.res = "ok" /\ r.inj = ""
+                 /\ StateOf(fs, r.key) \in {"absent", "empty"}
+        claims == firstmaker \/ headw
+        snap2 == IF claims THEN Put(g.snap, r.key.b, c.want) ELSE g.snap
+        part2 == IF claims THEN (IF c.injected THEN g.partial \cup {r.key.b} ELSE g.partial \ {r.key.b}) ELSE g.partial
+        own2  == IF headw THEN Put(g.owner, r.key.b, r.actor) ELSE g.owner
+        \* a deleted version's id may be used again: forget what was known about it
+        gone  == Bands(fs) \ Bands(f2)
+        Forget(f) == [x \in (DOMAIN f) \ gone |-> f[x]]
         blkw == c.fn = "backup" /\ r.verb = "write" /\ r.key.t = "Block" /\ r.res = "ok" /\ r.inj = ""
         c2  == IF c.fn = "none" THEN c
                ELSE [c EXCEPT !.band = IF newband THEN r.key.b ELSE @,
@@ -150,7 +171,8 @@ DoOp(r) ==
         changed == f2 # fs
     IN
     /\ fs' = f2
-    /\ g' = [g EXCEPT !.snap = snap2, !.partial = part2,
+    /\ g' = [g EXCEPT !.snap = Forget(snap2), !.partial = part2 \ gone, !.owner = Forget(own2),
+                      !.winners = Forget(@),
                       !.calls = IF c.fn = "none" THEN @ ELSE Put(@, r.actor, c2)]
     /\ viol' = viol
           \cup UNION {V(x[1], x[2]) : x \in OpMonitors(r, c)}
@@ -206,10 +228,10 @@ DeleteRetMonitors(r, c) ==
     LET D == SeqRange(c.bands) IN
        If(r.panic /\ ~r.crashed, {<<"Panic", r.pmsg>>})
   \cup If(r.timeout, {<<"Hang", "delete">>})
-  \cup If(c.dry /\ ~r.crashed /\ fs # c.fs0, {<<"DryRunChanged", 0>>})
-  \cup If(r.res \in {"err:DeleteWithIncompleteBackup", "err:GarbageCollectionLockHeld"} /\ ~c.injected /\ fs # c.fs0,
+  \cup If(c.dry /\ ~r.crashed /\ g.mode # "conc" /\ fs # c.fs0, {<<"DryRunChanged", 0>>})
+  \cup If(r.res \in {"err:DeleteWithIncompleteBackup", "err:GarbageCollectionLockHeld"} /\ ~c.injected /\ g.mode # "conc" /\ fs # c.fs0,
           {<<"RefusedDeleteChanged", r.res>>})
-  \cup If(r.res = "ok" /\ ~c.dry /\ ~r.crashed,
+  \cup If(r.res = "ok" /\ ~c.dry /\ ~r.crashed /\ g.mode # "conc",
              If(Bands(fs) # Bands(c.fs0) \ D, {<<"DeleteWrongBands", 0>>})
         \cup If(~(PresentBlocks(c.fs0) \cap Referenced(fs, Bands(fs)) \subseteq PresentBlocks(fs)),
                 {<<"GcLostReferenced", 0>>})
@@ -217,12 +239,20 @@ DeleteRetMonitors(r, c) ==
         \cup If(fs.lock, {<<"LockLeft", 0>>}))
 
 DoRet(r) ==
-    LET c == CallOf(r.actor) IN
-    /\ g' = [g EXCEPT !.calls = Del(@, r.actor)]
+    LET c == CallOf(r.actor)
+        won == c.fn = "backup" /\ r.res = "ok" /\ ~r.crashed /\ c.band # -1
+    IN
+    /\ g' = [g EXCEPT !.calls = Del(@, r.actor),
+                      \* a backup that reported errors may legitimately lack entries
+                      !.partial = IF c.fn = "backup" /\ c.band # -1 /\ (r.errors # 0 \/ r.mon_errors # 0 \/ r.res # "ok")
+                                  THEN @ \cup {c.band} ELSE @,
+                      !.winners = IF won /\ c.band \notin DOMAIN @ THEN Put(@, c.band, r.actor) ELSE @]
     /\ fs' = fs
     /\ viol' = viol \cup
          UNION {V(x[1], x[2]) : x \in
                   (IF c.fn = "backup" THEN BackupRetMonitors(r, c)
+                         \* two backups may not both report success for the same version
+                         \cup If(won /\ c.band \in DOMAIN g.winners, {<<"TwoWinners", c.band>>})
                    ELSE IF c.fn = "delete" THEN DeleteRetMonitors(r, c) ELSE {})}
 
 (***************************************************************************)
@@ -319,20 +349,27 @@ DoDamage(r) ==
     /\ UNCHANGED <<fs, viol>>
 
 DoSave(r) ==
-    /\ g' = [g EXCEPT !.saved = Append(@, [fs |-> fs, src |-> g.src, snap |-> g.snap, partial |-> g.partial,
+    /\ g' = [g EXCEPT !.saved = Append(@, [fs |-> fs, src |-> g.src, snap |-> g.snap, partial |-> g.partial, owner |-> g.owner, winners |-> g.winners,
                                             healthy |-> g.healthy, damaged |-> g.damaged, dmgdel |-> g.dmgdel])]
     /\ UNCHANGED <<fs, viol>>
 
 DoReset(r) ==
     LET s == g.saved[Len(g.saved)] IN
     /\ fs' = s.fs
-    /\ g' = [g EXCEPT !.src = s.src, !.snap = s.snap, !.partial = s.partial, !.calls = <<>>,
+    /\ g' = [g EXCEPT !.src = s.src, !.snap = s.snap, !.partial = s.partial, !.owner = s.owner, !.winners = s.winners, !.calls = <<>>,
                       !.healthy = s.healthy, !.damaged = s.damaged, !.dmgdel = s.dmgdel]
     /\ viol' = viol
 
 DoUnsave(r) ==
     /\ g' = [g EXCEPT !.saved = SubSeq(@, 1, Len(@) - 1)]
     /\ UNCHANGED <<fs, viol>>
+
+\* all concurrent actors have returned: every version marked complete must be whole
+DoQuiesce(r) ==
+    /\ UNCHANGED <<fs, g>>
+    /\ viol' = viol
+          \cup UNION {V("QuiescentDangling", x) : x \in Dangling(fs, CompleteBands(fs))}
+          \cup UNION {V("QuiescentSnap", b) : b \in SnapBroken(fs, g.snap, g.partial)}
 
 Skip(r) == UNCHANGED <<fs, g, viol>>
 
@@ -354,7 +391,8 @@ Next ==
          [] r.ev = "save"     -> DoSave(r)
          [] r.ev = "reset"    -> DoReset(r)
          [] r.ev = "unsave"   -> DoUnsave(r)
-         [] r.ev \in {"created", "end", "sweep", "crash", "note"} -> Skip(r)
+         [] r.ev = "quiesce"  -> DoQuiesce(r)
+         [] r.ev \in {"created", "end", "sweep", "crash", "note", "conc_begin"} -> Skip(r)
 
 Spec == Init /\ [][Next]_vars
 
